@@ -133,7 +133,13 @@ func (c *Ctx) ruleScalarMultLoops(cfg string) {
 		f := c.anchor(p, fname)
 		pt := p.Root.Members["Point"].Type()
 		st := p.Root.Members["Scalar"].Type()
-		for n := 0; f != nil && n <= 3; n++ {
+		bound := 3
+		if f != nil {
+			b, detail, ok := c.termBound(p, f, 3)
+			bound = b
+			c.Set.Add(report.Obligation{Rule: "N-UNIFORM", Key: "N-UNIFORM/" + fname, Config: cfg, Pos: p.Rel(f.Pos()), OK: ok, Detail: detail})
+		}
+		for n := 0; f != nil && n <= bound; n++ {
 			variants := []string{"fresh receiver", "used receiver"}
 			for j := 0; j < n; j++ {
 				variants = append(variants, fmt.Sprintf("v=points[%d]", j))
@@ -508,7 +514,13 @@ func (c *Ctx) ruleVarTimeLoops(cfg string) {
 		f := c.anchor(p, fname)
 		pt := p.Root.Members["Point"].Type()
 		st := p.Root.Members["Scalar"].Type()
-		for n := 0; f != nil && n <= 2; n++ {
+		bound := 2
+		if f != nil {
+			b, detail, ok := c.termBound(p, f, 2)
+			bound = b
+			c.Set.Add(report.Obligation{Rule: "N-UNIFORM", Key: "N-UNIFORM/" + fname, Config: cfg, Pos: p.Rel(f.Pos()), OK: ok, Detail: detail})
+		}
+		for n := 0; f != nil && n <= bound; n++ {
 			variants := []string{"fresh receiver", "used receiver"}
 			for j := 0; j < n; j++ {
 				variants = append(variants, fmt.Sprintf("v=points[%d]", j))
